@@ -607,13 +607,41 @@ def case_matmul(ctx, rng, nfac, entries, layout):
 
 # ------------------------------------------------------------------------------------------
 # I2 decompositions
-def square_case(ctx, rng, n, entries, layout, kind, symmetric=False, cov_prob=None):
+def mean_symmetrise(ctx, rng, chains, a):
+    """Equal elements: the matrix of MEAN values becomes exactly symmetric although [i, j] and [j, i] hold different things -
+    an independent observable with the same mean, a plain number with the value of the observable opposite, or a zero-mean
+    observable opposite a plain 0.  (Anything that looks only at the central values cannot tell it from a symmetric matrix.)"""
+    n = a.shape[0]
+    for i in range(n):
+        for j in range(i + 1, n):
+            up = a[i, j]
+            target = float(up.value) if is_obs(up) else float(up)
+            how = str(rng.choice(['independent', 'independent', 'number', 'zero']))
+            if how == 'number' and not is_obs(up):
+                how = 'independent'
+            if how == 'independent':
+                fresh = chains.obs(target)
+                a[j, i] = fresh - fresh.value + target
+            elif how == 'number':
+                a[j, i] = target
+            else:
+                fresh = chains.obs(0.0)
+                a[i, j] = 0.0
+                a[j, i] = fresh - fresh.value
+            ctx.cell('mean_symmetric_pair', how)
+    ctx.count('mean_symmetric_matrices')
+    return a
+
+
+def square_case(ctx, rng, n, entries, layout, kind, symmetric=False, cov_prob=None, mean_symmetric=False):
     chains = Chains(rng, ctx.tier, layout)
     if cov_prob is not None:
         chains.cov_prob = cov_prob
     cplx = entries in ('CObs', 'cmixed')
     m0 = central_matrix(rng, kind, n, cplx=cplx)
     a = make_matrix(rng, chains, m0, entries, symmetric=symmetric)
+    if mean_symmetric:
+        a = mean_symmetrise(ctx, rng, chains, a)
     return chains, a
 
 
@@ -633,9 +661,9 @@ def call(c, fn, a, op):
     return res
 
 
-def case_inv(ctx, rng, n, entries, layout):
+def case_inv(ctx, rng, n, entries, layout, ms=False):
     pe = PE
-    chains, a = square_case(ctx, rng, n, entries, layout, 'general')
+    chains, a = square_case(ctx, rng, n, entries, layout, 'spd' if ms else 'general', mean_symmetric=ms)
     ctx.cell('inv', 'dim%d' % n, entries, layout)
 
     def judge(c, arrs):
@@ -720,9 +748,9 @@ def tidy_residue(got, ref, snaps, gabs, rtol):
     return g
 
 
-def case_det(ctx, rng, n, entries, layout):
+def case_det(ctx, rng, n, entries, layout, ms=False):
     pe = PE
-    chains, a = square_case(ctx, rng, n, entries, layout, 'general', cov_prob=0.5)
+    chains, a = square_case(ctx, rng, n, entries, layout, 'spd' if ms else 'general', cov_prob=0.5, mean_symmetric=ms)
     desc = describe(a)
     mc = np.real(central(desc))
     cond = float(np.linalg.cond(mc))
@@ -817,9 +845,9 @@ def case_eigh(ctx, rng, op, n, entries, layout):
         history_check(ctx, rng, pe.linalg.eigh if op == 'eigh' else pe.linalg.eigv, [a], op, judge)
 
 
-def case_eig(ctx, rng, n, entries, layout):
+def case_eig(ctx, rng, n, entries, layout, ms=False):
     pe = PE
-    chains, a = square_case(ctx, rng, n, entries, layout, 'realspec')
+    chains, a = square_case(ctx, rng, n, entries, layout, 'sym' if ms else 'realspec', mean_symmetric=ms)
     ctx.cell('eig', 'dim%d' % n, entries, layout)
 
     def judge(c, arrs):
@@ -852,16 +880,18 @@ def case_eig(ctx, rng, n, entries, layout):
     run_with_diagnosis(ctx, [a], judge)
 
 
-def rect_case(ctx, rng, n, m, entries, layout):
+def rect_case(ctx, rng, n, m, entries, layout, ms=False):
     chains = Chains(rng, ctx.tier, layout)
-    m0 = central_matrix(rng, 'general', n, m)
+    m0 = central_matrix(rng, 'spd' if (ms and n == m) else 'general', n, m)
     a = make_matrix(rng, chains, m0, entries)
+    if ms and n == m:
+        a = mean_symmetrise(ctx, rng, chains, a)
     return chains, a
 
 
-def case_pinv(ctx, rng, n, m, entries, layout):
+def case_pinv(ctx, rng, n, m, entries, layout, ms=False):
     pe = PE
-    chains, a = rect_case(ctx, rng, n, m, entries, layout)
+    chains, a = rect_case(ctx, rng, n, m, entries, layout, ms)
     ctx.cell('pinv', 'square%d' % n if n == m else 'rect%dx%d' % (n, m), entries, layout)
 
     def judge(c, arrs):
@@ -890,9 +920,9 @@ def case_pinv(ctx, rng, n, m, entries, layout):
     run_with_diagnosis(ctx, [a], judge)
 
 
-def case_svd(ctx, rng, n, m, entries, layout):
+def case_svd(ctx, rng, n, m, entries, layout, ms=False):
     pe = PE
-    chains, a = rect_case(ctx, rng, n, m, entries, layout)
+    chains, a = rect_case(ctx, rng, n, m, entries, layout, ms)
     k = min(n, m)
     ctx.cell('svd', 'square%d' % n if n == m else 'rect%dx%d' % (n, m), entries, layout)
 
@@ -1228,6 +1258,12 @@ def plan(tier):
             for ent in REAL_ENTRIES:
                 p.append(('pinv:%d:%d:%s:%s' % (n, k, ent, lay), (2 if n == k and n > 1 else 1) * m))
                 p.append(('svd:%d:%d:%s:%s' % (n, k, ent, lay), (2 if n == k and n > 1 else 1) * m))
+    # matrices whose MEANS are symmetric while [i, j] and [j, i] are different things (equal elements)
+    for n in (2, 3, 4):
+        for lay in LAYOUTS:
+            p.append(('ms:eig:%d:%s' % (n, lay), 6 * m))
+            for op in ('inv', 'det', 'pinv', 'svd'):
+                p.append(('ms:%s:%d:%s' % (op, n, lay), 2 * m))
     for nfac in (2, 3, 4):
         for ent in ('Obs', 'CObs'):
             for lay in ('jack', 'jack_irregular'):
@@ -1248,7 +1284,20 @@ def plan(tier):
 def run_case(ctx, kind, idx, rng):
     k = kind.split(':')
     SECOND_CALL[0] = bool(rng.random() < 0.9)
-    if k[0] == 'matmul':
+    if k[0] == 'ms':
+        op, n_, lay = k[1], int(k[2]), k[3]
+        ent = str(rng.choice(['Obs', 'Obs', 'mixed']))
+        if op == 'eig':
+            case_eig(ctx, rng, n_, ent, lay, ms=True)
+        elif op == 'inv':
+            case_inv(ctx, rng, n_, ent, lay, ms=True)
+        elif op == 'det':
+            case_det(ctx, rng, n_, ent, lay, ms=True)
+        elif op == 'pinv':
+            case_pinv(ctx, rng, n_, n_, ent, lay, ms=True)
+        else:
+            case_svd(ctx, rng, n_, n_, ent, lay, ms=True)
+    elif k[0] == 'matmul':
         case_matmul(ctx, rng, int(k[1]), k[2], k[3])
     elif k[0] == 'inv':
         case_inv(ctx, rng, int(k[1]), k[2], k[3])
